@@ -260,68 +260,41 @@ Definition default_ok_b (v : view) (t : Z) (evs : list event) : bool :=
       else true
   end.
 
-(* ---- history functions ---- *)
-Section Hist.
+(* ---- the monitor at given registered functions / default / view ---- *)
+Section At.
   Variable F : Type.
   Variable interp : F -> rfn.
-  Variable pinterp : F -> rule.
 
-  Definition vstep (v : view) (o : op F) : view := match o with OUpdate v' => v' | _ => v end.
-  Definition last_view (h : list (op F)) : view := fold_left vstep h [].
-
-  Definition rstep (ty : Z) (r : option F) (o : op F) : option F :=
-    match o with OReg t f => if t =? ty then f else r | _ => r end.
-  Definition reg_at (h : list (op F)) (ty : Z) : option F := fold_left (rstep ty) h None.
-
-  Definition dstep (d : dmode F) (o : op F) : dmode F := match o with ODefault d' => d' | _ => d end.
-  Definition dflt_at (h : list (op F)) : dmode F := fold_left dstep h DApp.
-
-  Definition hreg (h : list (op F)) : Z -> option rfn := fun ty => option_map interp (reg_at h ty).
-  Definition hdflt (h : list (op F)) : option rfn :=
-    match dflt_at h with
-    | DApp => Some (app_default (last_view h))
-    | DNone => None
-    | DFn f => Some (interp f)
-    end.
-
-  (* the same rules as programs *)
-  Definition hrules (h : list (op F)) : Z -> option rule :=
-    fun ty => option_map pinterp (reg_at h ty).
-  Definition hpdflt (h : list (op F)) : option rule :=
-    match dflt_at h with
-    | DApp => Some (app_rule (last_view h))
-    | DNone => None
-    | DFn f => Some (pinterp f)
-    end.
-
-  Definition default_applies (h : list (op F)) (r : list Z) (p : param) : option Z :=
-    match r, rule_param p, dflt_at h with
+  Definition default_applies_at (tab : alist F) (d : dmode F) (r : list Z) (p : param)
+    : option Z :=
+    match r, rule_param p, d with
     | [t; _; _], Some _, DApp =>
         if t =? empty then None else
-        match reg_at h t with None => Some t | Some _ => None end
+        match aget t tab with None => Some t | Some _ => None end
     | _, _, _ => None
     end.
 
-  (* the monitor: the property evaluated on one implementation observation b of op o made
-     after history h *)
-  Definition op_ok1 (h : list (op F)) (o : op F) (b : obs) : bool :=
-    let v := last_view h in
+  (* the property evaluated on one implementation observation b of a single-call op o made
+     when [tab] are the registered functions, [d] the default and [v] the view *)
+  Definition op_ok_at (tab : alist F) (d : dmode F) (v : view) (o : op F) (b : obs) : bool :=
+    let reg := reg_in interp tab in
+    let dflt := dflt_in interp d v in
     match o, b with
-    | (OReg _ _ | ODefault _ | OUpdate _), BUnit => true
-    | ORoute ty p, BName n => n =? route (hreg h) (hdflt h) p ty
+    | (OReg _ _ | ODefault _ | OUpdate _ | OSelf _), BUnit => true
+    | ORoute ty p, BName n => n =? route reg dflt p ty
     | ORoutePID ty p, BPid po =>
-        match named_by_rule (hreg h) (hdflt h) ty p, po with
+        match named_by_rule reg dflt ty p, po with
         | Some n, Some q => known v n && pmem q (pids_named v n)
         | Some n, None => negb (known v n)
         | None, None => true
         | None, Some _ => false
         end
     | ORequest r p, BEvents evs =>
-        admissible_b (call_spec (hreg h) (hdflt h) v true r p) evs
-        && match default_applies h r p with Some t => default_ok_b v t evs | None => true end
+        admissible_b (call_spec reg dflt v true r p) evs
+        && match default_applies_at tab d r p with Some t => default_ok_b v t evs | None => true end
     | ONotify r p, BEvents evs =>
-        admissible_b (call_spec (hreg h) (hdflt h) v false r p) evs
-        && match default_applies h r p with Some t => default_ok_b v t evs | None => true end
+        admissible_b (call_spec reg dflt v false r p) evs
+        && match default_applies_at tab d r p with Some t => default_ok_b v t evs | None => true end
     | OQuery f, BEvents evs => admissible_b (front_spec v f QUERYSESSION) evs
     | OKick f, BEvents evs => admissible_b (front_spec v f KICK) evs
     | OWork ty, BNames l =>
@@ -331,21 +304,65 @@ Section Hist.
     | _, _ => false
     end.
 
-  (* calls in flight together: each is held to exactly what the property demands of it when
-     it is made alone, and the rule consulted for it saw the caller's own parameter *)
-  Definition call_ok_b (h : list (op F)) (c : pcall) (y : obs * list seen) : bool :=
-    op_ok1 h (op_of_call c) (fst y) && call_sees_own_b c (snd y).
+  (* one call of several in flight: held to exactly what the property demands of it when it
+     is made alone with the functions registered WHEN IT IS MADE, and the rule consulted for
+     it saw the caller's own parameter *)
+  Definition call_ok_at (d : dmode F) (v : view) (x : pcall * alist F) (y : obs * list seen)
+    : bool :=
+    op_ok_at (snd x) d v (op_of_call (fst x)) (fst y) && call_sees_own_b (fst x) (snd y).
+End At.
 
+Arguments default_applies_at {F} tab d r p.
+Arguments op_ok_at {F} interp tab d v o b.
+Arguments call_ok_at {F} interp d v x y.
+
+(* ---- history functions ---- *)
+Section Hist.
+  Variable F : Type.
+  Variable interp : F -> rfn.
+  Variable pinterp : F -> rule F.
+
+  Definition vstep (v : view) (o : op F) : view := match o with OUpdate v' => v' | _ => v end.
+  Definition last_view (h : list (op F)) : view := fold_left vstep h [].
+
+  Definition dstep (d : dmode F) (o : op F) : dmode F := match o with ODefault d' => d' | _ => d end.
+  Definition dflt_at (h : list (op F)) : dmode F := fold_left dstep h DApp.
+
+  Definition sstep (a : Z) (o : op F) : Z := match o with OSelf a' => a' | _ => a end.
+  Definition self_at (h : list (op F)) : Z := fold_left sstep h (-1).
+
+  (* the functions registered after h: Register is called by OReg, by rules that ran during a
+     call of h, and by other goroutines while the calls of an OCalls were in flight; which
+     rules ran is determined by running them (Model.fns_after) *)
+  Definition fns_at (h : list (op F)) : alist F := s_fns (final interp pinterp h).
+
+  Definition hreg (h : list (op F)) : Z -> option rfn := reg_in interp (fns_at h).
+  Definition hdflt (h : list (op F)) : option rfn := dflt_in interp (dflt_at h) (last_view h).
+
+  Definition op_ok1 (h : list (op F)) (o : op F) (b : obs) : bool :=
+    op_ok_at interp (fns_at h) (dflt_at h) (last_view h) o b.
+
+  (* calls in flight together under the schedule the op carries: the functions registered when
+     call i is made are a function of the history and the schedule *)
+  Definition calls_ok_b (tab : alist F) (d : dmode F) (v : view) (cs : list pcall)
+      (sched : list (sentry F)) (l : list (obs * list seen)) : bool :=
+    match sim F pinterp (pdflt_in pinterp d v) tab (map call_key cs) sched with
+    | None => false
+    | Some (_, _, ent) => all2b (call_ok_at interp d v) (combine cs ent) l
+    end.
+
+  (* the monitor: the property evaluated on one implementation observation b of op o made
+     after history h *)
   Definition op_ok_b (h : list (op F)) (o : op F) (b : obs) : bool :=
     match o, b with
-    | OCalls cs _, BCalls l => all2b (call_ok_b h) cs l
+    | OCalls cs sched, BCalls l => calls_ok_b (fns_at h) (dflt_at h) (last_view h) cs sched l
     | OCalls _ _, _ | _, BCalls _ => false
     | _, _ => op_ok1 h o b
     end.
 
   (* operations that only ask for a routing decision *)
   Definition is_decision (o : op F) : bool :=
-    match o with OReg _ _ | ODefault _ | OUpdate _ => false | _ => true end.
+    match o with OReg _ _ | ODefault _ | OUpdate _ | OSelf _ => false | _ => true end.
 
   Fixpoint monitor_from (hist : list (op F)) (ops : list (op F)) (bs : list obs) : bool :=
     match ops, bs with
@@ -356,15 +373,13 @@ Section Hist.
 End Hist.
 
 Arguments last_view {F} h.
-Arguments reg_at {F} h ty.
 Arguments dflt_at {F} h.
-Arguments hreg {F} interp h ty.
+Arguments self_at {F} h.
+Arguments fns_at {F} interp pinterp h.
+Arguments hreg {F} interp pinterp h ty.
 Arguments hdflt {F} interp h.
-Arguments hrules {F} pinterp h ty.
-Arguments hpdflt {F} pinterp h.
-Arguments default_applies {F} h r p.
-Arguments op_ok1 {F} interp h o b.
-Arguments call_ok_b {F} interp h c y.
-Arguments op_ok_b {F} interp h o b.
+Arguments op_ok1 {F} interp pinterp h o b.
+Arguments calls_ok_b {F} interp pinterp tab d v cs sched l.
+Arguments op_ok_b {F} interp pinterp h o b.
 Arguments is_decision {F} o.
-Arguments monitor_from {F} interp hist ops bs.
+Arguments monitor_from {F} interp pinterp hist ops bs.
